@@ -97,8 +97,12 @@ class Model:
                 self.r = pb.readers.DADAStokesReader(names)
             ref = raw[:, :, ::-1] if self.lsb else raw
             self.ref = np.ascontiguousarray(ref.transpose(0, 2, 1)).astype(np.float32)
+            # file channel k sits at FREQ - BW/2 + k * BW/NCHAN (BW signed): the channels of these filterbank files are centred on the grid that
+            # starts at the band edge, so FREQ itself is the label of channel NCHAN/2
+            nch, bwf, f0 = h["NCHAN"], F(h["BW"]), F(h["FREQ"])
+            fk = [(f0 - bwf / 2 + (k if nch % 2 == 0 else k + F(1, 2)) * bwf / nch) * 10**6 for k in range(nch)]
             self.expect = {"cls": "FullStokesSignal", "rate": O.hz(info["sample_rate"]), "chan_bw": abs(F(h["BW"])) / h["NCHAN"] * 10**6,
-                           "center": F(h["FREQ"]) * 10**6}
+                           "center": F(h["FREQ"]) * 10**6, "stokes_labels": sorted(fk)}
         else:
             kw = {}
             if opts.get("squeeze") is False:
@@ -216,6 +220,11 @@ class Model:
             check(abs(O.hz(z.center_freq) - self.expect["center"]) <= self.expect["center"] * F(1, 10**13), "{}: center_freq {}", what, z.center_freq)
             lab = O.hz_arr(z.channel_freqs)
             check(all(b > a for a, b in zip(lab, lab[1:])), "{}: channel labels not ascending", what)
+            if "stokes_labels" in self.expect:
+                exp_l = self.expect["stokes_labels"]
+                check(len(lab) == len(exp_l) and all(abs(a - b) <= abs(b) * F(1, 10**12) for a, b in zip(lab, exp_l)),
+                      "{}: channel labels {} MHz, the header (FREQ, BW, NCHAN) puts the channels at {} MHz", what, [float(a) / 1e6 for a in lab],
+                      [float(b) / 1e6 for b in exp_l])
         key = (o, n)
         if key in self.seen:
             check(self.seen[key] == got.tobytes(), "{}: a repeated read of ({}, {}) returned different data", what, o, n)
